@@ -578,8 +578,7 @@ Proof.
     destruct (index_get_array_ok (push value (upd_heap s _ (v_gc s))) l _ z G' Hz) as (v & Hv & Eg).
     { rewrite Hzl. exact R. }
     rewrite Hzl in Hv. rewrite Hn in Hv. inversion Hv; subst v. exact Eg.
-  - pose proof (index_set_array_ok s l vs z value) as _.
-    assert (E : index_set s (VArr l) (VInt z) value = Err EIndexError).
+  - assert (E : index_set s (VArr l) (VInt z) value = Err EIndexError).
     { unfold index_set. rewrite G. vmsimpl. rewrite norm_index_spec by (auto using zlength_nonneg).
       rewrite R. reflexivity. }
     rewrite E in H. discriminate H.
